@@ -1058,6 +1058,22 @@ func checkFailureBranchKv(p *Prog, r *Roles, res *Result, f *ssa.Function, casFa
 						}
 					}
 					if fresh {
+						// .. and the re-read succeeded: what it returns next to an error (for a deleted key: no value, the
+						// revision of the deletion) is not the state of a key
+						if ei := errorResultIndex(c.Common().Signature()); ei >= 0 {
+							okRead := false
+							for _, cf := range dominatingFacts(b) {
+								if cf.X == nil || !isNilConst(cf.Y) || !((cf.Op == token.EQL && cf.Want) || (cf.Op == token.NEQ && !cf.Want)) {
+									continue
+								}
+								if rc, idx, ok := extractOf(p.resolveDeep(cf.X)); ok && rc == c && idx == ei {
+									okRead = true
+								}
+							}
+							if !okRead {
+								good, why = false, "field "+fname+" is taken from the re-read without its error having been found nil: for a key that is deleted by now the re-read reports 'not found' together with the revision of the deletion, and the answer must carry no key-value"
+							}
+						}
 						continue
 					}
 					// fallback allowed only when the re-read failed
